@@ -55,6 +55,11 @@ LAB = st.one_of(
 )
 
 
+# ordered list labels (rank-ordered lineages are not alphabetical); two of
+# them hold the same elements in a different order and are different labels
+_LISTS = [["k__z", "p__b", "c__a"], ["p__b", "k__z", "c__a"], ["k__z", "a"]]
+
+
 def label_of(lab, i, md):
     """The label the statement assigns to (id, metadata) - model side."""
     k = lab["kind"]
@@ -67,7 +72,7 @@ def label_of(lab, i, md):
     if k == "injective":
         return "G:" + i
     if k == "list_valued":
-        return ("L%d" % (h(i, lab["salt"]) % 2), "x")
+        return tuple(_LISTS[h(i, lab["salt"]) % len(_LISTS)])
     if k == "none_some":
         return None if h(i, lab["salt"]) % 2 else "kept"
     if k == "falsy":
@@ -93,7 +98,7 @@ def labeller(lab, ids):
             groups = {g: tuple(v) for g, v in groups.items()}
         return groups, model
     if k == "list_valued":
-        f = lambda i, md: ["L%d" % (h(i, lab["salt"]) % 2), "x"]
+        f = lambda i, md: list(_LISTS[h(str(i), lab["salt"]) % len(_LISTS)])
     else:
         f = lambda i, md: label_of(lab, str(i), md)
     return f, (lambda i, md: label_of(lab, i, md))
@@ -288,22 +293,28 @@ def check(case, rec):
         return
 
     # one-to-one collapse
-    if case["lab"]["kind"] in ("list_valued", "none_some", "falsy"):
+    if case["lab"]["kind"] in ("list_valued", "falsy"):
         rec.skip("label cannot become an ID")
         return
     if case["lab"]["kind"] == "md" and ref.md(axis) is None:
         rec.skip("metadata labeller without metadata")
         return
-    if any(lb is None for lb in labels):
-        rec.skip("label None cannot become an ID")
+    # vectors labelled None (a function returning None, a mapping that omits
+    # an ID) form a group like any other; its ID prints as 'None'
+    has_none = any(lb is None for lb in labels)
+    rec.cls("collapse-with-None-group", has_none)
+    if has_none and "None" in groups:
+        rec.skip("labels None and 'None' together")
         return
     r = t.collapse(arg, norm=case["norm"], axis=axis,
                    min_group_size=case["min_group_size"],
                    include_collapsed_metadata=case["include_md"])
     got = observe.snapshot(r)
-    observe.check_lookups(r, got, "collapse result")
+    if not has_none:
+        observe.check_lookups(r, got, "collapse result")
     akey, ikey = ("samp", "obs") if axis == "sample" else ("obs", "samp")
-    exp_groups = {lb: idx for lb, idx in groups.items()
+    exp_groups = {("None" if lb is None else lb): idx
+                  for lb, idx in groups.items()
                   if len(idx) >= case["min_group_size"]}
     if sorted(got[akey]) != sorted(exp_groups) or \
             len(set(got[akey])) != len(got[akey]):
